@@ -471,6 +471,101 @@ def catalogue_chain_stream(ctx, res):
                 res.disagree("C11.chain", case, impl=[got[0], F.enc_val(got[1]) if got[0] == "ok" else got[1]], model=o)
 
 
+def flag_and_none_stream(ctx, res):
+    """(a) a chain of validators in which an earlier one turns a blank value into None and a later one rejects None: the load raises
+    (the chain does not stop at a validator that returns None); (b) a flagged sub-configuration whose list of configurations is
+    declared, and therefore written and loaded, BEFORE its feature flag: with the flag on in the document, items that miss a required
+    field or fail an item validator make the load raise, whatever the order of the keys; with the flag off they do not"""
+    import cincoconfig as cc
+    from cincoconfig.support import validator as register
+    # (a)
+    for how in ("decorator-twice", "ctor+decorator"):
+        for depth in (0, 2):
+            ran = []
+
+            def blank_means_unset(cfg, v, ran=ran):
+                ran.append("blank_means_unset")
+                return None if isinstance(v, str) and not v.strip() else v
+
+            def must_be_given(cfg, v, ran=ran):
+                ran.append("must_be_given")
+                if v is None:
+                    raise ValueError("must be given")
+                return v
+            s = cc.Schema()
+            holder = s
+            for lvl in range(depth):
+                holder = getattr(holder, "lvl%d" % lvl)
+            holder.host = cc.StringField(validator=blank_means_unset) if how == "ctor+decorator" else cc.StringField()
+            if how == "decorator-twice":
+                register(holder.host)(blank_means_unset)
+            register(holder.host)(must_be_given)
+            for value, bad in (("   ", True), ("", True), ("mail.example.org", False)):
+                tree = {"host": value}
+                for lvl in reversed(range(depth)):
+                    tree = {"lvl%d" % lvl: tree}
+                for route in ("load_tree", "json"):
+                    cfg = s()
+                    del ran[:]
+                    try:
+                        if route == "load_tree":
+                            cfg.load_tree(copy.deepcopy(tree))
+                        else:
+                            cfg.loads(json.dumps(tree).encode(), format="json")
+                        returned = True
+                    except Exception:  # noqa
+                        returned = False
+                    case = {"stream": "none-in-chain", "how": how, "depth": depth, "value": value, "route": route, "ran": list(ran)}
+                    res.case(stable(case), kind="none-in-chain")
+                    if returned and (bad or "must_be_given" not in ran):
+                        res.violate("C11:registered-validator-not-run", "a load returned although a later validator of the field's chain rejects what an earlier one returned "
+                                    "(or was not run at all)", case)
+    # (b)
+    for typed in (False, True):
+        for flag_in_doc in (True, False):
+            for order in ("list-first", "flag-first"):
+                for defect in ("missing-required", "item-validator", "none"):
+                    cert = cc.Schema()
+                    cert.path = cc.StringField(required=True)
+                    cert.bits = cc.IntField(default=2048)
+
+                    @register(cert)
+                    def strong(c):
+                        if c.bits is not None and c.bits < 1024:
+                            raise ValueError("weak key")
+                    C_ = cc.make_type(cert, "FlagCert") if typed else cert
+                    s = cc.Schema()
+                    s.http.tls.certs = cc.ListField(C_, default=lambda: [])
+                    s.http.tls.enabled = cc.FeatureFlagField(default=False)
+                    s.http.tls.port = cc.IntField(default=443)
+                    items = [{"path": "/a.pem"}, {"bits": 4096} if defect == "missing-required" else {"path": "/b.pem", "bits": 512} if defect == "item-validator" else {"path": "/b.pem"}]
+                    pairs = [("certs", items), ("enabled", flag_in_doc)]
+                    if order == "flag-first":
+                        pairs.reverse()
+                    tree = {"http": {"tls": dict(pairs)}}
+                    for route in ("load_tree", "json", "yaml-as-written"):
+                        cfg = s()
+                        try:
+                            if route == "load_tree":
+                                cfg.load_tree(copy.deepcopy(tree))
+                            elif route == "json":
+                                cfg.loads(json.dumps(tree).encode(), format="json")
+                            else:
+                                # the order the library itself writes: declaration order (list before flag)
+                                src = s()
+                                src.http.tls.enabled = False
+                                doc = cc.ConfigFormat.get("json").dumps(src, {"http": {"tls": {"certs": items, "enabled": flag_in_doc, "port": 443}}})
+                                cfg.loads(doc, format="json")
+                            returned = True
+                        except Exception:  # noqa
+                            returned = False
+                        case = {"stream": "flag-order", "config_type": typed, "flag_on_in_document": flag_in_doc, "order": order, "defect": defect, "route": route}
+                        res.case(stable(case), kind="flag-order:%s:%s" % (defect, "on" if flag_in_doc else "off"))
+                        if returned and flag_in_doc and defect != "none":
+                            res.violate("C11:item-not-validated", "a load returned with the feature flag on although an item of the flagged configuration's list misses a "
+                                        "required field / fails its validator", case)
+
+
 def env_required_stream(ctx, res):
     """required fields bound to an environment variable, with the variable in each of its states (unset, set but empty, set and
     valid) and a tree that omits the field or gives it: a load / validation that returns means the field has a value; a variable that
@@ -607,6 +702,7 @@ def run(ctx, n_quick=250, n_thorough=8000):
     guard(res, "C11", env_required_stream, ctx, res)
     guard(res, "C11", container_field_validator_stream, ctx, res)
     guard(res, "C11", catalogue_chain_stream, ctx, res)
+    guard(res, "C11", flag_and_none_stream, ctx, res)
     return res
 
 
